@@ -771,6 +771,17 @@ def fam_C11(rng, tier):
                         lines += ['new 2 list ' + ' '.join(xs[i:]), 'eq 1 2', 'root 2']
                     lines += ['clone 0 3', 'popslow 3 %d' % i, 'tovec 3', 'eq 3 1']
             out.append(Case(lines, 'suffix-all-indices', (), {'cfg': (kind, N, m)}))
+    # utils::int_log / compute_level compared directly on ranges and boundary values
+    r = sub(rng)
+    lines = [cfg_line(('u64', 8, 'btree'))]
+    ns = list(range(0, 70)) + [2 ** k + d for k in range(6, 64) for d in (-1, 0, 1)] + [2 ** 64 - 1, 2 ** 63 + 5]
+    for n in ns:
+        lines.append('intlog %d' % n)
+    for pd in (0, 1, 2, 3, 4, 5):
+        for d in (0, 1, 3, 10, 40, 63 - pd):
+            for i in list(range(0, 40)) + [2 ** k for k in range(5, 63, 7)] + [3 * 2 ** 20, 2 ** 62 + 2 ** 10]:
+                lines.append('complevel %d %d %d' % (i, d, pd))
+    out.append(Case(lines, 'utils-direct', (), {'cfg': ('u64', 8, 'btree')}))
     # large N, aligned indices, after prior histories
     for cfg in pick_configs(rng, scale(tier, 30, 200)):
         kind, N, m = cfg
